@@ -137,6 +137,11 @@ def execute_chart(case, ctx):
     xlim = cfg["xlim"]
     if xlim == "makespan+":
         xlim = mk + 7
+        if len(m.hist) % 2:
+            import numpy as np
+
+            xlim = np.int64(xlim)  # e.g. np.max over several makespans for a shared axis
+            ctx.probe("numpy_xlim")
     with warnings.catch_warnings():
         warnings.simplefilter("ignore")
         try:
